@@ -97,12 +97,46 @@ def inline_image(rng, valid=True):
         keys[0] = (keys[0][0], rng.choice(['-1', '9223372036854775807', '4294967296', '0', '(x)']))
     if not valid and rng.random() < 0.2:
         data = data[:max(0, len(data) - 1)]
+    if rng.random() < 0.4:
+        # further entries whose keys need #xx escapes (a key is a name: /My#20Key), values of every kind
+        for _ in range(rng.choice([1, 1, 2, 3])):
+            v = rng.choice(['7', '-0.5', '/N', '/A#20B', '(s)', '(a(b)\\))', '<41>', 'true', 'false', 'null', '[1 2]', '[/a (b) <</c 1>>]',
+                            '<</K 1>>', '<</A#20B [1 0 R]>>', '[]', '<<>>', '1.0', '+3'])
+            keys.insert(rng.randint(0, len(keys)), (spell_key(rng, odd_key(rng))[1:].decode('latin-1'), v))
     sep = rng.choice([' ', '\n', ' \n', '\r\n'])
     txt = 'BI' + sep + sep.join('/%s %s' % kv for kv in keys) + sep + 'ID' + rng.choice([' ', '\n', '\r\n', '\t', '\r'])
-    return txt.encode() + data + rng.choice([b' ', b'\n', b'']) + b'EI' + rng.choice([b' ', b'\n', b''])
+    return txt.encode('latin-1') + data + rng.choice([b' ', b'\n', b'']) + b'EI' + rng.choice([b' ', b'\n', b''])
 
 
 IMG_CS = [('DeviceGray', 1), ('Gray', 1), ('DeviceRGB', 3), ('RGB', 3), ('DeviceRGBA', 4), ('RGBA', 4), ('DeviceCMYK', 4), ('CMYK', 4)]
+
+# bytes a name cannot hold raw (ISO 32000-1 7.3.5: white space, delimiters, the number sign itself; and, by recommendation,
+# everything outside 33..126): in a name they are spelled #xx.  A key of an inline-image dictionary is a name like any other.
+KEY_ESC = [0x00, 0x09, 0x0a, 0x0c, 0x0d, 0x20, 0x23, 0x25, 0x28, 0x29, 0x2f, 0x3c, 0x3e, 0x5b, 0x5d, 0x7b, 0x7d, 0x7f, 0x80, 0xff, 0x01]
+ODD_KEYS = [b'My Key', b'A#B', b'a/b', b' ', b'#', b'#20', b'K(1)', b'W ', b'H\x00', b'Length#', b'BPC/', b'/W', b'CS%', b'<<', b'>>',
+            b'[X]', b'ID ', b' EI', b'I D', b'x\ny', b'\r\n', b'{}', b'Caf\xe9', b'\x7f', b'A#20B', b'#41', b'1 0 R', b'Key#2', b'##']
+
+
+def odd_key(rng):
+    """the raw bytes of a dictionary key that needs at least one #xx escape when written as a name; never one of the keys an
+    inline image gives a meaning to (those are plain letters)"""
+    if rng.random() < 0.5:
+        return rng.choice(ODD_KEYS)
+    k = bytearray(rng.choice(b'ABCXYZabcxyz0123456789.-+_*') if rng.random() < 0.6 else rng.choice(KEY_ESC) for _ in range(rng.randint(1, 6)))
+    if not any(c in KEY_ESC for c in k):
+        k.insert(rng.randint(0, len(k)), rng.choice(KEY_ESC))
+    return bytes(k)
+
+
+def spell_key(rng, raw):
+    """the key as a name token of the source: /, regular bytes raw (now and then spelled #xx as well), every other byte #xx"""
+    out = b'/'
+    for c in raw:
+        if c in KEY_ESC or c < 33 or c > 126 or rng.random() < 0.1:
+            out += (rng.choice(['#%02x', '#%02X']) % c).encode()
+        else:
+            out += bytes([c])
+    return out
 
 
 def image_geometry(rng, ragged=True):
@@ -134,7 +168,7 @@ def image_data(rng, n):
     return bytes(d)
 
 
-def image_operation(rng, ragged=True):
+def image_operation(rng, ragged=True, g=None):
     """an inline image as Content::decode returns it and as a program builds it: operator BI with ONE stream operand whose
     dictionary holds W/H/CS/BPC (abbreviated or long keys, any order, optional further entries) and whose content has the
     length the dictionary implies"""
@@ -145,6 +179,17 @@ def image_operation(rng, ragged=True):
     if rng.random() < 0.3:
         ent.append(rng.choice([('I', B(True)), ('D', A([I(1), I(0)])), ('Intent', N('Perceptual')), ('IM', B(False)),
                                ('Length', I(n)), ('Length', I(n + 3))]))
+    if rng.random() < 0.4:
+        # further entries under keys that the name writer has to escape (white space, #, delimiters, bytes outside 33..126);
+        # values of every kind
+        used = set()
+        for _ in range(rng.choice([1, 1, 2, 3])):
+            k = odd_key(rng)
+            if k in used:
+                continue
+            used.add(k)
+            v = g.obj(rng.choice([0, 0, 1, 2])) if g is not None else rng.choice([I(7), N('v'), B(True), NULL, S(b'(x'), H(b'A'), A([I(1), N(b'a b')]), D([(b'k k', I(1))])])
+            ent.append((k, v))
     rng.shuffle(ent)
     return L('op', xb('BI'), ST(ent, image_data(rng, n))), (w, h, nc, bpc)
 
@@ -158,7 +203,7 @@ def gen_enc_image(rng, reals, ragged=True):
         for _ in range(rng.choice([0, 1, 2])):
             n = rng.choice([0, 1, 2])
             ops.append(L('op', xb(roperator(rng, n == 0)), *[g.obj(rng.choice([0, 1])) for _ in range(n)]))
-        o, ge = image_operation(rng, ragged)
+        o, ge = image_operation(rng, ragged, g)
         ops.append(o)
         geo.append(ge)
     if rng.random() < 0.5:
@@ -381,6 +426,10 @@ class Producer:
             ent.append(r.choice([(b'/I', b'true'), (b'/Interpolate', b'false'), (b'/IM', b'false'), (b'/ImageMask', b'false'),
                                  (b'/D', b'[1 0]'), (b'/Decode', b'[0.0 1.0]'), (b'/Intent', b'/Perceptual'),
                                  (b'/DP', b'<</K -1>>'), (b'/Metadata', b'null'), (b'/X', self.obj(1, True))]))
+        if r.random() < 0.4:
+            # a key is a name: further entries whose keys hold white space, #, delimiters, bytes outside 33..126 (spelled #xx)
+            for _ in range(r.choice([1, 1, 2, 3])):
+                ent.append((spell_key(r, odd_key(r)), self.obj(r.choice([0, 1, 2]), True)))
         r.shuffle(ent)
         out = b'BI' + r.choice([b' ', b'\n', b'\r\n', b'', b'\t'])
         prev = b'/'
@@ -500,6 +549,16 @@ def gen_cases(rng, tier):
               b'[null true false] x', b'[null1] x', b'<</K true2>> x', b'BI /W 5 /H 1 /CS /G /BPC 8 ID null1 EI Q',
               b'BI /W 5 /H 1 /CS /Gray /BPC 8 ID null1 EI Q', b'1 null%c\n x', b'true', b'x null']:
         cases.append((L('dec', xb(t)), {'kind': 'dec-keyword-boundary', 'nontrivial': True}))
+    # inline images whose dictionaries hold keys that need #xx escapes (a key is a name and is written by the name writer)
+    for t in [b'BI /W 1 /H 1 /CS /Gray /BPC 8 /My#20Key 7 ID x EI', b'BI /W 1 /H 1 /CS /Gray /BPC 8 /A#23B#2fC (v) ID x EI Q',
+              b'BI /W#20 9 /W 1 /H 1 /CS /Gray /BPC 8 ID x EI', b'q BI /#20 null /W 1 /H 1 /#23 1 /CS /RGB /BPC 8 /#28#29 [1 2] ID xyz EI Q',
+              b'BI /W 2 /H 1 /CS /Gray /BPC 8 /K#00 <</A#20B /C#2FD>> /Caf#e9 true /#7f#80#FF 1.5 ID xy EI',
+              b'BI /W 1 /H 1 /CS /Gray /BPC 8 /ID#20 1 /#20EI#20 2 ID x EI', b'BI /W 1 /H 1 /BPC 8 /CS /Gray /Length#23 5 /#3c#3C <41> ID x EI']:
+        cases.append((L('dec', xb(t)), {'kind': 'dec-image-key', 'nontrivial': True}))
+        cases.append((L('decv', xb(t), str(1 + t.count(b'q') + t.count(b'Q'))), {'kind': 'decv-image-key', 'nontrivial': True}))
+    for key in ODD_KEYS:
+        ent = [('W', I(1)), ('H', I(1)), ('CS', N('Gray')), ('BPC', I(8)), (key, I(7))]
+        cases.append((L('enc', L('ops', L('op', xb('BI'), ST(ent, b'x')), L('op', xb('Q'))), 'wf'), {'kind': 'enc-image-key', 'nontrivial': True}))
     # the float assumptions of the second-sentence theorem (canon_spec) and the model's real syntax / overflow bound
     for t in real_texts(rng, tier):
         cases.append((L('real', xb(t.encode())), {'kind': 'real', 'nontrivial': True}))
